@@ -51,7 +51,7 @@ def propagate_fft(wavefront, pixelscale, shape=None, oversample=2,
     # than wavelength * F-number) is folded onto the grid: in a transform of period
     # K, samples K apart contribute with the same phase, so the transform of the
     # folded plane is the transform of the whole plane. (Padding would crop it.)
-    fold = wavefront.shape != () and np.any(np.asarray(wavefront.shape) > fft_shape)
+    fold = np.size(wavefront.shape) == 2 and np.any(np.asarray(wavefront.shape) > fft_shape)
 
     if shape is None:
         shape_out = tuple(fft_shape)
